@@ -1957,6 +1957,34 @@ theorem run_LastIns (ops : List Op) (c0 : Cfg) (past : List Op) (w : World) (hc 
 
 
 
+/-! ## the smallest answer TTL -/
+
+theorem foldl_min_le (rest : List Nat) (t : Nat) :
+    rest.foldl min t ≤ t ∧ ∀ x ∈ rest, rest.foldl min t ≤ x := by
+  induction rest generalizing t with
+  | nil => exact ⟨Nat.le_refl _, fun x hx => by simp at hx⟩
+  | cons y rest ih =>
+    simp only [List.foldl_cons]
+    obtain ⟨h1, h2⟩ := ih (min t y)
+    refine ⟨by omega, ?_⟩
+    intro x hx
+    rcases List.mem_cons.mp hx with rfl | hx
+    · omega
+    · exact h2 x hx
+
+theorem foldl_min_mem (rest : List Nat) (t : Nat) : rest.foldl min t ∈ t :: rest := by
+  induction rest generalizing t with
+  | nil => simp
+  | cons y rest ih =>
+    simp only [List.foldl_cons]
+    have := ih (min t y)
+    rcases List.mem_cons.mp this with h | h
+    · rw [h]
+      by_cases hty : t ≤ y
+      · rw [Nat.min_eq_left hty]; simp
+      · rw [Nat.min_eq_right (by omega)]; simp
+    · simp [h]
+
 /-! ## question class -/
 
 theorem digit_ne_hash {c : Char} {n : Nat} (h : c ∈ Nat.toDigits 10 n) : c ≠ '#' := by
